@@ -126,9 +126,8 @@ func (i *Input) next() (byte, error) {
 	if i.forward == len(i.buff)/2 { // Is forward at the end of first half?
 		i.err = i.loadSecond()
 	} else if i.forward == len(i.buff) { // Is forward at the end of second half?
-		if i.err = i.loadFirst(); i.err == nil {
-			i.forward = 0 // beginning of the first half
-		}
+		i.err = i.loadFirst()
+		i.forward = 0 // beginning of the first half (forward always stays within the buffer)
 	} else if i.buff[i.forward] == eof {
 		i.err = io.EOF
 	}
